@@ -211,6 +211,7 @@ func (s *Server) Run(addr string, opt ...Option) error {
 		s.connWg.Add(1)
 		s.mu.Unlock()
 		go func() {
+			connCtx, connDone := context.WithCancel(s.shutdownCtx)
 			defer func() {
 				// Stop waits on connWg: only signal it once the connection
 				// is closed and the onCloseHandler has returned.
@@ -219,6 +220,7 @@ func (s *Server) Run(addr string, opt ...Option) error {
 					s.connWg.Done()
 				}()
 				err := conn.close()
+				connDone()
 				if err != nil {
 					s.logger.Error("error closing conn", "op", op, "conn", localConnID, "conn/req", "err", err)
 					// we are intentionally not returning here; since we still
@@ -250,6 +252,20 @@ func (s *Server) Run(addr string, opt ...Option) error {
 					return
 				}
 			}
+			// a client must not be able to keep Stop waiting by holding its
+			// connection idle, stopping half-way through a frame or not reading
+			// its responses: once the server is stopping, expire whatever the
+			// connection (its read loop or, until conn.close() has returned, one
+			// of its handlers) is blocked on (writes get a short grace period so
+			// that the notice of disconnection can still go out).
+			go func() {
+				<-connCtx.Done()
+				if s.shutdownCtx.Err() != nil {
+					now := time.Now()
+					_ = c.SetReadDeadline(now)
+					_ = c.SetWriteDeadline(now.Add(time.Second))
+				}
+			}()
 			if err := conn.serveRequests(); err != nil {
 				s.logger.Error("error handling conn", "op", op, "conn", localConnID, "err", err.Error())
 			}
